@@ -189,3 +189,55 @@ def is_nodes(l: L) -> B:
     if is_empty(l):
         return True
     return is_node(head(l)) and wf(head(l)) and is_nodes(tail(l))
+
+
+# ---- the renaming stack of make_args_unique: a list of (old name, new name) pairs -----------------
+def is_str_pair(p: Py) -> B:
+    return isinstance(p, tuple) and len(items_of(p)) == 2 and isinstance(nth(items_of(p), 0), str) \
+        and isinstance(nth(items_of(p), 1), str)
+
+
+def pairs_ok(l: L) -> B:
+    return all_list(is_str_pair, l)
+
+
+def lem_pairs_rev(l: L, acc: L) -> B:
+    return implies(pairs_ok(l) and pairs_ok(acc), pairs_ok(rev_acc(l, acc)))
+
+
+def lem_pairs_cat(a: L, b: L) -> B:
+    return implies(pairs_ok(a) and pairs_ok(b), pairs_ok(concat(a, b)))
+
+
+def is_plain_arg(x: Py) -> B:
+    """arg(name, annotation=None): what make_args_unique builds."""
+    return isinstance(x, ast.arg) and x.annotation is None and isinstance(x.arg, str)
+
+
+def lem_plain_snoc(l: L, x: Py) -> B:
+    return implies(all_list(is_plain_arg, l) and is_plain_arg(x), all_list(is_plain_arg, concat(l, [x])))
+
+
+def lem_pairs_snoc(l: L, x: Py) -> B:
+    return implies(pairs_ok(l) and is_str_pair(x), pairs_ok(concat(l, [x])))
+
+
+def lem_take_all(l: L) -> B:
+    return same(take(l, len(l)), l)
+
+
+def lem_take_take(l: L, n: I, m: I) -> B:
+    """Taking m of the first n is taking m, when m <= n."""
+    return implies(0 <= m and m <= n, same(take(take(l, n), m), take(l, m)))
+
+
+def lem_take_take_ih(l: L, n: I, m: I) -> B:
+    return lem_take_take(tail(l), n - 1, m - 1)
+
+
+def lem_pa1(l: L) -> B:
+    return implies(all_list(is_plain_arg, l), wf_arglist(l))
+
+
+def lem_qs_snoc(l: L, x: Py) -> B:
+    return implies(all_list(qs, l) and qs(x), all_list(qs, concat(l, [x])))
